@@ -5,6 +5,7 @@ use serde_json::Value;
 use std::path::Path;
 use std::time::Instant;
 
+pub mod c03;
 pub mod c08;
 pub mod c09;
 pub mod c10;
@@ -18,6 +19,7 @@ type RunFn = fn(&Env, &Known, Instant, u64, Vec<Violation>) -> i32;
 type ReplayFn = fn(&Value) -> Outcome;
 
 const TABLE: &[(&str, RunFn, ReplayFn)] = &[
+    ("C03", c03::run, c03::replay),
     ("C08", c08::run, c08::replay),
     ("C09", c09::run, c09::replay),
     ("C10", c10::run, c10::replay),
